@@ -4,6 +4,7 @@
 import CedarProofs.CacheLemmas
 import CedarProofs.Prefix
 import CedarProofs.Keyed
+import CedarProps.C02
 
 namespace Cedar.C06
 open Cedar Cedar.SC
@@ -345,5 +346,38 @@ example : ∃ k, (some k = some 7) ∧
 example : ((serverAfterResume [1,2,3] (some [9]) 7 ⟨2, []⟩).run histDemo).2.length = 2 := by decide
 example : (((serverAfterResume [1,2,3] (some [9]) 7 ⟨2, []⟩).run histDemo).1.recvFrameWithEnd (keyHolderFrame 7)).toBool = true := by decide
 example : (((serverAfterResume [1,2,3] (some [9]) 7 ⟨2, []⟩).run histDemo).1.recvFrameWithEnd (keyHolderFrame 8)).toBool = false := by decide
+
+/-! ### Replays of recorded connections, beyond the first frame
+
+`replay_rejected` / `reply_replay_rejected` cover the FIRST protected frame and take the digest
+difference as a hypothesis about that frame. Below: the whole resumed connection, against the C02
+adversary enlarged by everything recorded on earlier connections of the session
+(`C02.AdvWireS`), with the freshness facts as explicit session hypotheses. -/
+
+/-- **resumed_replay_prefix**: a server connection resumed in the reply mode (reply bytes `b2`,
+    carrying this connection's fresh `ResumeNonce`) hands its application only a prefix of the
+    messages the key-holding client sends on THIS connection — whatever the adversary forges,
+    reflects, or replays from this or any EARLIER connection of the session, at any position.
+    Session hypotheses: the base IVs of earlier connections differ in their last 12 bytes from this
+    client's (`hiv_fresh`), and every earlier first frame was sealed over a reply other than `b2`
+    (`hnonce_fresh`: its second AAD digest is not `H b2` — a consequence of the fresh nonce under
+    the free-constructor hash, `digests_differ`). In the no-reply mode the second hypothesis is
+    unavailable and the statement fails (`noreply_replay_fails`). -/
+theorem resumed_replay_prefix (req b2 : Bytes) (k : Nat) (ivS ivR : IV) (S S' R' : Stream)
+    (ops opsR : List SendOp) (sent own old w : List WireFrame)
+    (hivS : ivS.w0 < 2^32) (hivR : ivR.w0 < 2^32) (hsep : ivS.tail ≠ ivR.tail)
+    (hsend : (S.setKey k ivS).sendAll ops = .ok (S', sent))
+    (hown : (serverAfterResume req (some b2) k ivR).sendAll opsR = .ok (R', own))
+    (hiv_fresh : ∀ f ∈ old, ∀ ivo c, f.body = .ct ivo c → c.key = k → c.nonce.tail ≠ ivS.tail)
+    (hnonce_fresh : ∀ f ∈ old, ∀ ivo c, f.body = .ct ivo c → c.key = k →
+        ∀ d1 d2, c.aad.digests = some (d1, d2) → d2 ≠ .H b2)
+    (hadv : C02.AdvWireS k sent own old w) (n : Nat) :
+    Stream.deliverFuel n (serverAfterResume req (some b2) k ivR) w <+: messagesOf [] ops := by
+  let R0 : Stream := { (({} : Stream).feedRecv req) with dig := (({} : Stream).feedRecv req).dig.feedSend b2 }
+  have hfs : R0.dig.fs = .H b2 := by
+    simp [R0, Stream.feedRecv, Dig.feedRecv, Dig.feedSend, Dig.fs]
+  have hold : C02.OldConnections k ivS (R0.dig.fr, R0.dig.fs) old :=
+    ⟨hiv_fresh, fun f hf ivo c hb hk heq => hnonce_fresh f hf ivo c hb hk _ _ heq hfs⟩
+  exact C02.recv_prefix_resumed S S' R0 R' k ivS ivR ops opsR sent own old w hivS hivR hsep hold hsend hown hadv n
 
 end Cedar.C06
